@@ -1,11 +1,11 @@
 """C04 -- resolution is log-spaced and monotone; averaging honours the overlap."""
 from . import sched as SC
-from .C02 import split, ob_ltf, ob_vec, ob_new, encoded_functions as _enc
+from .C02 import split, ob_ltf, ob_vec, ob_new, encoded_functions as _enc, ob_whole_plan, whole_plan_obligations
 
 PROPERTY = "C04"
 META = {
     "bounds": {"quick": "monotonicity (ltf/lpsd): the step map state -> (L,K) is monotone, two independent copies of ONE iteration from arbitrary states fi<=fi2, N unbounded, proved as a chain of three links cut at the two rounding statements (each link for arbitrary values of the quantity crossing the cut); vectorised: adjacent entries of the lookup maps, same three-link chain; unclamped-regime clauses, K formula, even spread: one iteration from an arbitrary state, N unbounded (start spread: generic k / generic-element array; literal unrolling N<=12); reported overlap: bins with 1..4 symbolic starts; forced bin count: find_Jdes_binary_search executed in fork mode over ALL return patterns of an uninterpreted scheduler with MIN_JDES..MAX_JDES shrunk to 8 values",
-               "thorough": "unrolling N<=24, search range 32 values"},
+               "thorough": "unrolling N<=24, search range 32 values; whole plans of ltf/lpsd at N=8 path by path (see C02)"},
     "outside": ["'the vectorised scheduler produces the same number of bins as the iterative one to within 10%' (whole-plan property over a transcendental grid: not encodable as a bounded query)", "IEEE ties", SC.POW_FACTS],
     "stubs": ["(N/2)**(1/Jdes) uninterpreted with facts", "scheduler called by the Jdes search -> uninterpreted nf(Jdes)", "MIN_JDES/MAX_JDES overridden (the search logic does not depend on the range)"],
     "assumptions": ["'K >= Kdes where attainable and unclamped' is demanded as K >= the Kdes-level averaging of a segment at most half a sample longer than the ideal one (the integer rounding of L the property grants)"],
@@ -67,4 +67,5 @@ def obligations(tier):
         split(obs, "new/step", "ob_new", {"part": "step"}, G, timeout=to, weight=5)
     for Kn in (1, 2, 3, 4):
         obs.append({"name": "ltf/overlap-K%d" % Kn, "fn": "ob_overlap", "params": {"Kn": Kn}, "timeout": to})
+    whole_plan_obligations(obs, tier, "C04")
     return obs
